@@ -22,7 +22,7 @@
     [clear_forgets] is not claimed: FIFOShardedCache.Clear removes the keys listed by Keys(), which
     skips the empty key; [cl_clear] ("only drops") is what holds, and it is proved. *)
 From Coq Require Import List NArith PeanoNat Bool Lia.
-From Verif Require Import Base.BStr Unit.StorageUnit Fifo.Ring Fifo.Sharded Fifo.FifoSpec
+From Verif Require Import Base.BStr Unit.StorageUnit Unit.StorageUnit_proofs Unit.CacherPred Fifo.Ring Fifo.Sharded Fifo.FifoSpec
   Fifo.Ring_proofs Fifo.Sharded_proofs.
 Import ListNotations.
 Local Open Scope nat_scope.
@@ -103,7 +103,7 @@ Qed.
 Lemma cmap_get_new sz n k : cmap_get k (cmap_new sz n) = None.
 Proof.
   unfold cmap_get, get_shard, cmap_new. cbn [shardCount shards].
-  destruct (nth_in_or_default (route n k) (repeat (new_shard (shard_size sz n)) n) (new_shard 1)) as [Hin|->].
+  destruct (nth_in_or_default (route n k) (repeat (new_shard (shard_size sz n)) n) (new_shard 1)) as [Hin | ->].
   - apply repeat_spec in Hin. rewrite Hin. reflexivity.
   - reflexivity.
 Qed.
@@ -179,4 +179,73 @@ Proof.
   - vm_compute. reflexivity.
   - intros H. destruct (get_shard_inv _ _ [] H) as [Hs _]. destruct (inv_bij _ Hs) as [H0 _].
     vm_compute in H0. discriminate.
+Qed.
+
+(** * With non-empty keys, the FIFO cache inside the unit is a cache REACHABLE in the sense of C20
+    (Fifo/FifoSpec.v): some history of cache operations with non-empty keys builds exactly it.
+    Every theorem of Props/C20.v therefore applies to it (ring invariant, bound, views, ...). *)
+Lemma reachable_step sz n c o : reachable sz n c -> op_nonempty o -> reachable sz n (step_cache c o).
+Proof.
+  intros (fops & Hne & ->) Ho. exists (fops ++ [o]). split.
+  - apply Forall_app. split; [exact Hne|constructor; [exact Ho|constructor]].
+  - rewrite run_app. reflexivity.
+Qed.
+
+Lemma fifo_unit_reachable sz n ops : Forall uop_nonempty ops ->
+  reachable sz n (u_cache (unit_final (fifo_ops sz n) (unit_new (fifo_ops sz n)) ops)).
+Proof.
+  intros Hne.
+  apply (unit_final_pred (fifo_ops sz n) (reachable sz n : c_st (fifo_ops sz n) -> Prop) (fun k => k <> [])).
+  - intros s k v Hk Hr. apply (reachable_step sz n s (Sharded.OPut k v) Hr). exact Hk.
+  - intros s k Hk Hr. apply (reachable_step sz n s (Sharded.OGet k) Hr). exact Hk.
+  - intros s k Hk Hr. apply (reachable_step sz n s (Sharded.ORemove k) Hr). exact Hk.
+  - intros s Hr. apply (reachable_step sz n s Sharded.OClear Hr). exact I.
+  - exact Hne.
+  - exists []. split; [constructor|reflexivity].
+Qed.
+
+Lemma fifo_unit_cache_inv sz n ops : valid_cfg sz n -> Forall uop_nonempty ops ->
+  cache_inv sz n (u_cache (unit_final (fifo_ops sz n) (unit_new (fifo_ops sz n)) ops)).
+Proof. intros Hv Hne. apply reachable_inv; [exact Hv|]. apply fifo_unit_reachable. exact Hne. Qed.
+
+(** the ring invariant of C20, for the cache inside the unit *)
+Lemma fifo_unit_ring_invariant sz n ops : valid_cfg sz n -> Forall uop_nonempty ops ->
+  forall s, In s (shards (cm (u_cache (unit_final (fifo_ops sz n) (unit_new (fifo_ops sz n)) ops) : cache))) ->
+    Ring.maxSize s = shard_size sz n /\ length (mapKeys s) = Ring.maxSize s /\
+    nth_error (mapKeys s) (idxAdd s) = Some [] /\
+    NoDup (map fst (items s)) /\ NoDup (nonblank (mapKeys s)) /\
+    aget [] (items s) = None /\
+    forall k i, k <> [] -> (nth_error (mapKeys s) i = Some k <-> exists v, aget k (items s) = Some (v, i)).
+Proof.
+  intros Hv Hne s Hin. destruct (fifo_unit_reachable sz n ops Hne) as (fops & Hf & Heq).
+  change (u_cache (unit_final (fifo_ops sz n) (unit_new (fifo_ops sz n)) ops) : cache)
+    with (u_cache (unit_final (fifo_ops sz n) (unit_new (fifo_ops sz n)) ops)) in Hin.
+  rewrite Heq in Hin. exact (thm_ring_invariant sz n fops Hv Hf s Hin).
+Qed.
+
+(** * Cold reads of the FIFO cache, guarded: valid configuration (at least two slots per shard),
+    non-empty keys in the history, non-empty key read.  Then Clear does empty the cache and a Get / Has
+    right after ClearCache reaches the persister. *)
+Lemma fifo_cold_read sz n (Hn : 1 <= n) ops k o : valid_cfg sz n -> Forall uop_nonempty ops -> k <> [] ->
+  let C := fifo_ops sz n in
+  let s := unit_clear_cache C (unit_final C (unit_new C) ops) in
+  let m := ack_map (unit_run C (unit_new C) ops) in
+  snd (unit_get C s k o) = (if hd false o then GErr EInjected else spec_get m k) /\
+  snd (unit_has C s k o) = (if hd false o then EInjected else spec_has m k).
+Proof.
+  intros Hv Hne Hk C s m. subst m. set (L := fifo_laws sz n Hn).
+  rewrite <- (StorageUnit_proofs.pers_is_ack C L).
+  pose proof (StorageUnit_proofs.final_coherent C L ops _ (StorageUnit_proofs.coherent_new C L)) as Hco0.
+  destruct (StorageUnit_proofs.clear_spec C L _ Hco0) as [Hco Hp]. fold s in Hco, Hp. rewrite <- Hp.
+  assert (Hm : cl_may C L (u_cache s) k = None).
+  { pose proof (fifo_unit_cache_inv sz n ops Hv Hne) as Hc0.
+    set (c0 := u_cache (unit_final (fifo_ops sz n) (unit_new (fifo_ops sz n)) ops)) in *.
+    change (cache_get k (step_cache c0 Sharded.OClear) = None).
+    destruct (clear_empties sz n c0 Hc0) as [Hkeys _].
+    assert (Hc : cache_inv sz n (step_cache c0 Sharded.OClear)) by (apply step_inv; [exact Hc0|exact I]).
+    destruct (views_agree sz n _ Hc) as (_ & _ & _ & _ & Hhg & Hin & _).
+    destruct (cache_get k (step_cache c0 Sharded.OClear)) as [w|] eqn:E; [|reflexivity].
+    exfalso. assert (Hh : cache_has k (step_cache c0 Sharded.OClear) = true) by (apply Hhg; congruence).
+    apply (Hin k Hk) in Hh. rewrite Hkeys in Hh. destruct Hh. }
+  split; [apply (StorageUnit_proofs.get_miss C L)|apply (StorageUnit_proofs.has_miss C L)]; assumption.
 Qed.
